@@ -104,6 +104,8 @@ pub fn expand(input: &DeriveInput, trait_name: &'static str) -> Result<TokenStre
         };
 
         let try_from = quote! {
+            #[allow(deprecated)] // omit warnings on deprecated fields/variants
+            #[allow(unreachable_code)] // omit warnings for `!` and other unreachable types
             #[automatically_derived]
             impl #impl_generics derive_more::core::convert::TryFrom<
                 #reference_with_lifetime #input_type #ty_generics
